@@ -1,12 +1,13 @@
 """C15: stored and bulk-loaded data come back bit-identical.
 
 Real round trips through PyTables (ra.save / ra.load) in a temporary directory under /tmp (removed
-after every case), the striped loaders of enspara.mpi.io at world size 1, and
-load_as_concatenated on the bundled test trajectories with 1, 2 and 4 worker processes.
+after every case), the striped loaders of enspara.mpi.io at world size 1 (and, for the file-order and long-row
+streams, on every rank of world sizes 2..4, simulated rank by rank: see _world), and
+load_as_concatenated on the bundled test trajectories with 1, 2, (3) and 4 worker processes.
 Every array item is handed to the Coq model as its *bit pattern* (an integer), so equality in the
 model is bit identity.
 """
-import hashlib, math, os, shutil, sys, tempfile
+import contextlib, copy, hashlib, logging, math, os, shutil, sys, tempfile
 import numpy as np
 from core import cz, cn, cb, clist, copt, REPO, VERIF
 sys.path.insert(0, os.path.join(VERIF, "translator"))
@@ -35,6 +36,11 @@ CASE_HEADER = ("From Coq Require Import List ZArith.\nFrom EV Require Import PyS
                "  leqb Z.eqb gl lens &&\n"
                "  opt_eqb (leqb elem_eqb) (gen_npy_fill s (gen_stripe 0 1 files)\n"
                "                             (repeat (zero_elem tail) (Z.to_nat (zsum (gen_stripe 0 1 gl))))) (Some data).\n"
+               "Definition g_npy_ok_at (rank size : Z) (tail : list nat) (s : Z) (files : list (list elem)) (lens : list Z) (data : list elem) : bool :=\n"
+               "  let gl := map (fun r => gen_npy_global_len (zlen r) s) files in\n"
+               "  leqb Z.eqb gl lens &&\n"
+               "  opt_eqb (leqb elem_eqb) (gen_npy_fill s (gen_stripe rank size files)\n"
+               "                             (repeat (zero_elem tail) (Z.to_nat (zsum (gen_stripe rank size gl))))) (Some data).\n"
                "Definition g_lac_ok (sched : list nat) (zero : elem) (lens : list Z) (blocks : list (list elem)) (xyz : list elem) : bool :=\n"
                "  opt_eqb (leqb elem_eqb) (gen_run_jobs (pick_jobs (combine (gen_offsets lens) blocks) sched)\n"
                "                                        (repeat zero (Z.to_nat (zsum lens)))) (Some xyz).\n")
@@ -54,6 +60,21 @@ RULE = ("(ra) RaggedArray / ndarray inputs with 1..300 rows (row counts around t
         "ordered length collection, rank stripe at world size 1) are evaluated next to the hand model and compared with the "
         "node names, lengths and data the real code produced. (long / lachist) oracle-only: rows of 65537..131075 items "
         "with strides 3/5/7/10/1000; reloading after one file was rewritten with another frame count. "
+        "(longrow) oracle-only: one file per case holding a row of > 2^20 and a row of > 2^21 items (> 2^24 once in "
+        "thorough) next to rows of 1..9 items, int8/uint8 (int16/float32 in thorough), 1-D and 2-D items, item i of row k = "
+        "(i + 17k) mod 251 (32749 / 2^24); loaded with strides 3, 5, 7, 1000003 and one of 1/2/6/9/10/11/13/1000/4097/65537/"
+        "2^20+-1, all keys and key subsets (one long row; long rows reversed plus a repeat; a permutation; a sorted "
+        "subset), and through load_h5_as_striped at world sizes 1 and 2; the first differing item is reported. "
+        "(keys-permuted) ra cases whose keys= names every row once in reversed / rotated / shuffled order, rows of unequal "
+        "and of equal length, strided rows pairwise different, 2..12 rows (..101 in thorough). "
+        "(ord) 2..13 .npy files of pairwise different contents (different strided lengths, or all equal) whose caller's "
+        "order is not the lexicographic one -- unpadded trj-0..trj-12 in numeric order, directories listed in reverse, one "
+        "base name in several unordered directories, shuffled names -- loaded with load_npy_as_striped, "
+        "cluster.util.load_features (npy and h5 branch) and load_h5_as_striped (the rows saved with ra.save) on EVERY rank "
+        "of world sizes 1..4 (enspara.mpi.rank/size replaced, rank 0's bcast replayed), strides 1..3: global lengths and "
+        "each rank's stripe against the caller's order, and against the model's loaders at that (rank, size). "
+        "(lac-sounded-distinct) 3..5 files of >= 2 types with pairwise different strided lengths, no lengths= hint, "
+        "processes 1, 2, 3 and 4. "
         "non-trivial := (ra/raw) >= 2 rows of different lengths or a stride > 1 or a proper key subset; "
         "(lac/npy) >= 2 files of different strided length")
 TRUSTED = ["translator/tr_store.py (expressions, slices and loop bodies of ra.save / ra.load / util.load / mpi.io -> "
@@ -65,7 +86,9 @@ TRUSTED = ["translator/tr_store.py (expressions, slices and loop bodies of ra.sa
            "touches exactly the addressed window (modelled as single-item writes landing in an arbitrary order)",
            "mdtraj: md.open(..).__len__, md.load(stride=, atom_indices=, frame=) (the loaded frames are model input)",
            "NumPy slicing x[::s] = PySlice.slice_list; np.load/np.save of .npy files",
-           "MPI: world size 1 only (the in-tree DummyComm); rank/size striping is modelled but not executed for size > 1"]
+           "MPI: no runtime. World size 1 is the in-tree DummyComm; world sizes 2..4 of the striped loaders (ord / longrow "
+           "streams) are run rank by rank in one process with enspara.mpi.rank / size replaced and rank 0's bcast values "
+           "replayed to the other ranks (the loaders have no other collective)"]
 ASSUMPTIONS = ["stride >= 1 (the loaders raise or misbehave on stride < 1; outside the property)",
                "rows have at least one element: PyTables refuses zero-sized CArrays, ra.save raises ValueError "
                "(modelled as a rejected input, checked as such)",
@@ -132,16 +155,42 @@ def _gen_elems(rng, dt, tail, n, small):
 
 
 # ----------------------------------------------------------------------------- generators
-def _ra_case(rng, n, big):
+def _ra_case(rng, n, big, perm=None, equal=False):
+    """perm: None | "rev" | "rot" | "perm" -- keys= is a non-ascending permutation of ALL rows (every row once);
+    equal: all rows of one length (a reordering then changes the values but not the lengths)"""
     dt = rng.choice(DTYPES)
+    if perm is not None and dt == "bool":
+        dt = "uint8"            # two values cannot tell a dozen rows apart
     tail = rng.choice([[], [], [], [2], [3], [2, 2], [1]])
     if n > 40:
         tail = rng.choice([[], [], [2]])
     maxlen = 6 if n <= 12 else (3 if n <= 120 else 2)
     rows = [_gen_elems(rng, dt, tail, rng.randint(1, maxlen), rng.random() < 0.5) for _ in range(n)]
+    if equal:
+        L = rng.randint(min(3, maxlen), maxlen)
+        rows = [_gen_elems(rng, dt, tail, L, rng.random() < 0.5) for _ in range(n)]
     stride = rng.choice([1, 1, 2, 2, 3, 4, 5, 7])
+    if perm is not None and n >= 2:
+        # make the reordering visible: the strided rows must be pairwise different and (unless equal) of >= 2 lengths
+        stride = rng.choice([1, 1, 2] if equal else [1, 1, 2, 3])
+        for _ in range(200):
+            strided = [tuple(map(tuple, x[::stride])) for x in rows]
+            if len(set(strided)) == n and (equal or len({len(x) for x in strided}) >= 2):
+                break
+            k = rng.randrange(n)
+            rows[k] = _gen_elems(rng, dt, tail, len(rows[k]) if equal else rng.randint(1, maxlen), False)
     m = rng.random()
-    if m < 0.5:
+    if perm is not None and n >= 2:
+        if perm == "rev":
+            idxs = list(range(n))[::-1]
+        elif perm == "rot":
+            k = rng.randrange(1, n)
+            idxs = list(range(k, n)) + list(range(k))
+        else:
+            idxs = list(range(n))
+            while idxs == sorted(idxs):
+                rng.shuffle(idxs)
+    elif m < 0.5:
         idxs = None
     elif m < 0.6:
         idxs = [rng.randrange(n)]
@@ -223,6 +272,31 @@ def _npy_case(rng):
 _TRJ = [("frame0.xtc", True), ("frame0.h5", False), ("native.pdb", False)]
 
 
+def _lac_distinct_case(rng):
+    """sounded (no lengths= hint) parallel load of 3..5 files whose strided lengths are pairwise different, at least
+    two file types (their sounding costs differ, so the workers finish out of file order), processes 1..4"""
+    n = rng.randint(3, 5)
+    natoms = rng.choice([1, 2, 3])
+    while True:
+        files = []
+        for _ in range(n):
+            fn, needs_top = rng.choice(_TRJ[:2] + _TRJ[:2] + _TRJ)
+            stride = rng.choice([2, 3, 5, 7, 25, 50, 100, 167, 250, 500, 501, 600])
+            frame = rng.randrange(501) if (fn != "native.pdb" and rng.random() < 0.08) else None
+            files.append({"fn": fn, "top": needs_top, "stride": stride, "frame": frame,
+                          "sel": sorted(rng.sample(range(22), natoms))})
+        if files[0]["fn"] == "native.pdb":
+            continue            # see _lac_case: mdtraj's shape probe on a pdb with atom_indices
+        lens = [1 if (f["fn"] == "native.pdb" or f["frame"] is not None) else _ceil(501, f["stride"]) for f in files]
+        if len(set(lens)) == n and len({f["fn"] for f in files}) >= 2 and sum(lens) * natoms * 3 <= 3000:
+            break
+    sched = list(range(n))
+    while sched == sorted(sched):
+        rng.shuffle(sched)
+    return {"kind": "lac", "files": files, "shared": False, "hint": False, "sched": sched, "procs": [1, 2, 3, 4],
+            "distinct": True}
+
+
 def _lac_case(rng, small):
     nfiles = rng.randint(1, 5)
     natoms = rng.choice([1, 2, 3]) if small else rng.choice([3, 5, 22])
@@ -248,6 +322,98 @@ def _lac_case(rng, small):
     rng.shuffle(sched)
     return {"kind": "lac", "files": files, "shared": shared, "hint": rng.random() < 0.3, "sched": sched,
             "procs": [1, 2, 4]}
+
+
+_LONG_MOD = {"uint8": 251, "int8": 251, "int16": 32749, "float32": 1 << 24}
+
+
+def _longrow_case(rng, tier, huge=False, tail=None):
+    """rows longer than 2^20 and 2^21 entries (2^24 in one thorough case) next to short ones; item i of row k holds
+    (i + 17 k) mod m (m = 251 / 32749 / 2^24 by dtype), so one misplaced or missing item is visible.  The file is
+    written once per case; every (keys, stride) probe and the striped loader (world sizes 1 and 2) read it."""
+    dt = rng.choice(["uint8", "int8"] if tier == "quick" else ["uint8", "int8", "int16", "float32"])
+    if tail is None or dt not in ("uint8", "int8"):
+        tail = rng.choice([[], [], [2]]) if dt in ("uint8", "int8") else []
+    big = [(1 << 20) + rng.randint(1, 70000), (1 << 21) + rng.randint(1, 70000)]
+    if huge:
+        dt, tail, big = "uint8", [], [(1 << 24) + rng.randint(1, 5000)]
+    lens = big + [rng.randint(1, 9) for _ in range(rng.randint(1, 3))]
+    rng.shuffle(lens)
+    n = len(lens)
+    strides = [3, 5, 7, 1000003] + [rng.choice([1, 2, 6, 9, 10, 11, 13, 1000, 4097, 65537, (1 << 20) + 1, (1 << 20) - 1])]
+    long_idx = [i for i, L in enumerate(lens) if L > (1 << 20)]
+    perm = list(range(n))
+    rng.shuffle(perm)
+    subsets = [[long_idx[0]], long_idx[::-1] + [rng.randrange(n)], perm,
+               sorted(rng.sample(range(n), rng.randint(2, n)))]
+    probes = [{"keys": None, "stride": st} for st in strides]
+    probes += [{"keys": sub, "stride": rng.choice(strides[:4])} for sub in subsets]
+    striped = [{"P": 1, "stride": rng.choice(strides[:3])}, {"P": 2, "stride": rng.choice(strides[:4])}]
+    return {"kind": "longrow", "dtype": dt, "tail": tail, "lens": lens, "probes": probes, "striped": striped}
+
+
+def _ord_names(rng, layout, n):
+    """relative file names in the CALLER's order, which is not the lexicographic order of the full paths"""
+    if layout == "unpadded":            # trj-0 ... trj-11 in numeric order ("trj-10" < "trj-2" as strings)
+        return ["trj-%d.npy" % i for i in range(n)]
+    if layout == "dirs-rev":            # two (three) directories listed newest first, numbered files inside each
+        dirs = ["run%d" % k for k in range(rng.choice([2, 2, 3]))][::-1]
+        out = []
+        for j, dname in enumerate(dirs):
+            cnt = n // len(dirs) + (1 if j < n % len(dirs) else 0)
+            out += ["%s/part%d.npy" % (dname, i) for i in range(cnt)]
+        return out
+    if layout == "dup-names":           # the same base name in different directories, directories not in order
+        dirs = ["%s%d" % (rng.choice("abcxyz"), i) for i in range(n)]
+        while dirs == sorted(dirs):
+            rng.shuffle(dirs)
+        return ["%s/feat.npy" % dname for dname in dirs]
+    while True:                         # arbitrary names in arbitrary order
+        names = set()
+        while len(names) < n:
+            names.add("".join(rng.choice("abAB019_-") for _ in range(rng.randint(1, 4))) + ".npy")
+        names = list(names)
+        rng.shuffle(names)
+        if names != sorted(names):
+            return names
+
+
+def _ord_case(rng, layout, equal):
+    """file lists that are NOT in lexicographic order, with different contents (and, unless `equal`, different
+    lengths) per file, for load_npy_as_striped / load_h5_as_striped / cluster.util.load_features at world sizes 1..4:
+    global lengths and every rank's stripe must follow the caller's order"""
+    if layout == "unpadded":
+        n = rng.randint(11, 13)
+    elif layout == "dirs-rev":
+        n = rng.randint(3, 7)
+    else:
+        n = rng.randint(2, 7)
+    names = _ord_names(rng, layout, n)
+    n = len(names)
+    dt = rng.choice(["int32", "int64", "float32", "float64", "uint8", "int16"])
+    tail = rng.choice([[], [], [2], [3]])
+    stride = rng.choice([1, 1, 2, 3])
+    order = sorted(range(n), key=lambda i: names[i])
+    for _ in range(500):
+        if equal:
+            L = rng.randint(2 * stride, 2 * stride + 3)
+            lens = [L] * n
+        else:
+            lens = [rng.randint(1, 7) for _ in range(n)]
+        elems = [_gen_elems(rng, dt, tail, L, False) for L in lens]
+        st = [tuple(map(tuple, e[::stride])) for e in elems]
+        slen = [len(x) for x in st]
+        if len(set(st)) == n and (equal or [slen[i] for i in order] != slen):
+            break
+    return {"kind": "ord", "layout": layout, "equal": equal, "dtype": dt, "tail": tail, "stride": stride,
+            "files": [{"rel": nm, "elems": e} for nm, e in zip(names, elems)],
+            "worlds": [P for P in (1, 2, 3, 4) if P <= n],
+            # the same list as trajectory files (file i = lens[i] frames cut at a different place of frame0.h5), through
+            # load_trajectory_as_striped (world size 1) and load_as_concatenated with `trj` processes; 0 = not run
+            "trj": rng.choice([0, 0, 2, 3]) if n <= 7 else 0}
+
+
+_ORD_LAYOUTS = ["unpadded", "dirs-rev", "dup-names", "shuffled"]
 
 
 def generate(rng, tier):
@@ -281,6 +447,27 @@ def generate(rng, tier):
         cases.append(_lac_case(rng, True))
     for _ in range(10 if quick else 60):
         cases.append(_lac_case(rng, False))
+    # keys= naming every row once in a non-ascending order (reversed / rotated / shuffled), unequal and equal lengths
+    for n in ([2, 3, 5, 9, 10, 11, 12] if quick else [2, 2, 3, 3, 4, 5, 6, 7, 8, 9, 10, 11, 12, 13, 20, 30, 99, 100, 101]):
+        for perm in ("rev", "rot", "perm"):
+            for equal in (False, True):
+                for _ in range(1 if quick else 2):
+                    cases.append(_ra_case(rng, n, True, perm=perm, equal=equal))
+    # file lists not in lexicographic order, world sizes 1..4
+    for layout in _ORD_LAYOUTS:
+        for equal in (False, False, True):
+            for _ in range(3 if quick else 12):
+                cases.append(_ord_case(rng, layout, equal))
+    # sounded parallel loads of files with pairwise different lengths, processes 1..4
+    for _ in range(14 if quick else 60):
+        cases.append(_lac_distinct_case(rng))
+    # rows longer than 2^20 / 2^21 entries
+    cases.append(_longrow_case(rng, "quick", tail=[]))
+    cases.append(_longrow_case(rng, "quick", tail=[2]))
+    for _ in range(0 if quick else 8):
+        cases.append(_longrow_case(rng, tier))
+    if not quick:
+        cases.append(_longrow_case(rng, tier, huge=True))
     # rows longer than any plausible internal read block, strides that do not divide powers of two
     for _ in range(2 if quick else 8):
         cases.append({"kind": "long", "lens": [rng.choice([65537, 70001, 131075]), rng.randint(1, 9)][:rng.choice([1, 2])],
@@ -314,6 +501,191 @@ def _run_long(c, d):
     ok_full = all(np.array_equal(x, y) for x, y in zip(rowsof(full), rows)) and len(rowsof(full)) == len(rows)
     ok_str = all(np.array_equal(x, y[::c["stride"]]) for x, y in zip(rowsof(strided), rows)) and len(rowsof(strided)) == len(rows)
     return {"roundtrip": bool(ok_full), "stride_eq_slice": bool(ok_str)}
+
+
+@contextlib.contextmanager
+def _world(P, r, log):
+    """world size P seen from rank r, without an MPI runtime: enspara.mpi.rank / size are replaced for the duration of
+    the call; the loaders' only collective is bcast from rank 0, so rank 0 runs first, its broadcasts are recorded in
+    `log` and replayed, in order, to the other ranks.  P = 1 runs on the untouched in-tree DummyComm."""
+    if P == 1:
+        yield
+        return
+    from enspara import mpi
+
+    class Comm:
+        def __init__(self):
+            self.i = 0
+
+        def bcast(self, v, root=0):
+            assert root == 0
+            if r == 0:
+                log.append(copy.deepcopy(v))
+                return v
+            v = log[self.i]
+            self.i += 1
+            return copy.deepcopy(v)
+
+        def barrier(self):
+            pass
+
+        Barrier = barrier
+
+    saved = (mpi.rank, mpi.size, mpi.comm)
+    mpi.rank, mpi.size, mpi.comm = (lambda: r), (lambda: P), Comm()
+    try:
+        yield
+    finally:
+        mpi.rank, mpi.size, mpi.comm = saved
+
+
+def _striped_runs(worlds, call):
+    """{P: [result of rank 0, ..., rank P-1]} of a striped loader"""
+    out = {}
+    for P in worlds:
+        log, per_rank = [], []
+        for r in range(P):
+            try:
+                with _world(P, r, log):
+                    gl, loc = call()
+                loc = np.asarray(loc)
+                per_rank.append({"lengths": [int(v) for v in gl], "dtype": str(loc.dtype), "tail": list(loc.shape[1:]),
+                                 "data": _to_bits(loc)})
+            except Exception as ex:
+                per_rank.append(_err(ex))
+        out[str(P)] = per_rank
+    return out
+
+
+def _run_ord(c, d):
+    from enspara import ra
+    from enspara.mpi import io as mio
+    from enspara.cluster import util as cutil
+    dt, tail, s = c["dtype"], c["tail"], c["stride"]
+    fns, arrs = [], []
+    logging.disable(logging.INFO)       # load_features reports every load at INFO level
+    try:
+        return _run_ord_quiet(c, d)
+    finally:
+        logging.disable(logging.NOTSET)
+
+
+def _run_ord_quiet(c, d):
+    from enspara import ra
+    from enspara.mpi import io as mio
+    from enspara.cluster import util as cutil
+    dt, tail, s = c["dtype"], c["tail"], c["stride"]
+    fns, arrs = [], []
+    for f in c["files"]:
+        fn = os.path.join(d, f["rel"])
+        os.makedirs(os.path.dirname(fn), exist_ok=True)
+        a = _from_bits(f["elems"], dt, [len(f["elems"])] + tail)
+        np.save(fn, a)
+        fns.append(fn)
+        arrs.append(a)
+    h5 = os.path.join(d, "rows.h5")
+    ra.save(h5, ra.RaggedArray(array=np.concatenate(arrs), lengths=[len(a) for a in arrs]))
+    res = {"names": _node_names(h5)}
+    res["npy"] = _striped_runs(c["worlds"], lambda: mio.load_npy_as_striped(list(fns), stride=s))
+    res["lf_npy"] = _striped_runs(c["worlds"], lambda: cutil.load_features(list(fns), s))
+    res["h5"] = _striped_runs(c["worlds"], lambda: mio.load_h5_as_striped(h5, stride=s))
+    res["lf_h5"] = _striped_runs(c["worlds"], lambda: cutil.load_features([h5], s))
+    if c.get("trj"):
+        import mdtraj as md
+        from enspara.util.load import load_as_concatenated
+        src = md.load(os.path.join(DATA, "frame0.h5"))
+        tfn, off = [], 0
+        for f in c["files"]:
+            tfn.append(os.path.join(d, f["rel"][:-4] + ".h5"))
+            src[off:off + len(f["elems"])].save_hdf5(tfn[-1])
+            off += 10
+        kw = {} if s == 1 else {"stride": s}
+        indiv = [md.load(f, **kw).xyz for f in tfn]
+        res["trj"] = {}
+        for name, call in (("lac", lambda: load_as_concatenated(list(tfn), processes=c["trj"], **kw)),
+                           ("striped", lambda: mio.load_trajectory_as_striped(list(tfn), processes=c["trj"], **kw))):
+            try:
+                lengths, xyz = call()
+                res["trj"][name] = {"lengths_ok": [int(v) for v in lengths] == [len(x) for x in indiv],
+                                    "lengths": [int(v) for v in lengths],
+                                    "data_ok": bool(np.array_equal(xyz, np.concatenate(indiv)))}
+            except Exception as ex:
+                res["trj"][name] = _err(ex)
+    return res
+
+
+def _long_rows(c):
+    m, dt, tail = _LONG_MOD[c["dtype"]], np.dtype(c["dtype"]), tuple(c["tail"])
+    k = _prod(tail)
+    return [((np.arange(n * k, dtype=np.int64) + 17 * i) % m).astype(dt).reshape((n,) + tail)
+            for i, n in enumerate(c["lens"])]
+
+
+def _cmp_rows(got, exp):
+    """None if the loaded rows equal the expected ones, else where they first differ"""
+    if len(got) != len(exp):
+        return "%d rows, expected %d" % (len(got), len(exp))
+    for i, (g, e) in enumerate(zip(got, exp)):
+        g = np.asarray(g)
+        if g.dtype != e.dtype:
+            return "row %d: dtype %s, expected %s" % (i, g.dtype, e.dtype)
+        if g.shape != e.shape:
+            return "row %d: shape %s, expected %s" % (i, list(g.shape), list(e.shape))
+        if not np.array_equal(g, e):
+            bad = np.argwhere(g != e)[0]
+            return "row %d: item %s is %s, expected %s (%d items differ)" % (
+                i, [int(v) for v in bad], g[tuple(bad)], e[tuple(bad)], int((g != e).sum()))
+    return None
+
+
+def _long_striped(rows, P, st, call):
+    log, whys = [], []
+    for r in range(P):
+        try:
+            with _world(P, r, log):
+                gl, loc = call(st)
+            if [int(v) for v in gl] != [_ceil(len(x), st) for x in rows]:
+                whys.append("rank %d: global lengths %s" % (r, [int(v) for v in gl]))
+            why = _cmp_rows([np.asarray(loc)], [np.concatenate([x[::st] for x in rows[r::P]])])
+            if why is not None:
+                whys.append("rank %d: %s" % (r, why))
+        except Exception as ex:
+            whys.append("rank %d raised %s: %s" % (r, type(ex).__name__, str(ex)[:120]))
+    return {"ok": not whys, "why": "; ".join(whys) or None}
+
+
+def _run_longrow(c, d):
+    from enspara import ra
+    from enspara.mpi import io as mio
+    rows = _long_rows(c)
+    path = os.path.join(d, "longrow.h5")
+    ra.save(path, ra.RaggedArray(array=np.concatenate(rows), lengths=[len(x) for x in rows]))
+    names = _node_names(path)
+    res = {"names_n": len(names), "probes": [], "striped": [], "striped_npy": []}
+    fns = []
+    for i, x in enumerate(rows):        # the same rows as .npy files, for load_npy_as_striped
+        fns.append(os.path.join(d, "long-%d.npy" % i))
+        np.save(fns[-1], x)
+    for pr in c["probes"]:
+        idxs = list(range(len(rows))) if pr["keys"] is None else pr["keys"]
+        exp = [rows[i][::pr["stride"]] for i in idxs]
+        try:
+            x = ra.load(path, keys=Ellipsis if pr["keys"] is None else [names[i] for i in idxs], stride=pr["stride"])
+            if hasattr(x, "_data"):
+                got = [np.asarray(x[i]) for i in range(len(x.lengths))]
+                why = _cmp_rows(got, exp)
+                if why is None and [int(v) for v in x.lengths] != [len(e) for e in exp]:
+                    why = "lengths %s" % [int(v) for v in x.lengths]
+            else:
+                why = _cmp_rows([np.asarray(x)], exp)
+            res["probes"].append({"ok": why is None, "why": why})
+        except Exception as ex:
+            res["probes"].append({"ok": False, "why": "raised %s: %s" % (type(ex).__name__, str(ex)[:120])})
+    for name, call in (("striped", lambda st: mio.load_h5_as_striped(path, stride=st)),
+                       ("striped_npy", lambda st: mio.load_npy_as_striped(list(fns), stride=st))):
+        for sp in c["striped"]:
+            res[name].append(_long_striped(rows, sp["P"], sp["stride"], call))
+    return res
 
 
 def _run_lachist(c, d):
@@ -509,6 +881,10 @@ def run_impl(c):
             return _run_raw(c, d)
         if c["kind"] == "long":
             return _run_long(c, d)
+        if c["kind"] == "longrow":
+            return _run_longrow(c, d)
+        if c["kind"] == "ord":
+            return _run_ord(c, d)
         if c["kind"] == "lachist":
             return _run_lachist(c, d)
         return _run_npy(c, d)
@@ -521,8 +897,80 @@ def _ceil(n, s):
     return -(-n // s)
 
 
+def _oracle_longrow(c, r):
+    out = []
+    if "err" in r:
+        return [("long-row", "save/load of long rows raised %s" % r)]
+    if r["names_n"] != len(c["lens"]):
+        out.append(("node-count", "%d nodes for %d rows" % (r["names_n"], len(c["lens"]))))
+    for pr, x in zip(c["probes"], r["probes"]):
+        if not x["ok"]:
+            key = "roundtrip" if (pr["keys"] is None and pr["stride"] == 1) else "stride-subset"
+            out.append((key, "rows of %s %s%s items: load(keys=%s, stride=%d) differs from slicing the saved rows: %s" % (
+                c["lens"], c["dtype"], c["tail"] or "", pr["keys"], pr["stride"], x["why"])))
+    for sp, x in zip(c["striped"], r["striped"]):
+        if not x["ok"]:
+            out.append(("striped-h5", "rows of %s %s items: load_h5_as_striped(stride=%d) at world size %d: %s" % (
+                c["lens"], c["dtype"], sp["stride"], sp["P"], x["why"])))
+    for sp, x in zip(c["striped"], r["striped_npy"]):
+        if not x["ok"]:
+            out.append(("striped-npy", "files of %s %s items: load_npy_as_striped(stride=%d) at world size %d: %s" % (
+                c["lens"], c["dtype"], sp["stride"], sp["P"], x["why"])))
+    return _first_per_key(out, "probes")
+
+
+def _first_per_key(out, what):
+    """one line per clause: the first place it fails at, and how many more there are"""
+    first, count = {}, {}
+    for key, msg in out:
+        first.setdefault(key, msg)
+        count[key] = count.get(key, 0) + 1
+    return [(key, msg + (" [and at %d more %s]" % (count[key] - 1, what) if count[key] > 1 else ""))
+            for key, msg in first.items()]
+
+
+def _oracle_ord(c, r):
+    out = []
+    if "err" in r:
+        return [("ord", "writing the files raised %s" % r)]
+    fs, s = c["files"], c["stride"]
+    exp_len = [_ceil(len(f["elems"]), s) for f in fs]
+    rels = [f["rel"] for f in fs]
+    for name, key in (("npy", "striped-npy"), ("lf_npy", "load-features-npy"), ("h5", "striped-h5"), ("lf_h5", "load-features-h5")):
+        for P, per_rank in r[name].items():
+            P = int(P)
+            for rank, x in enumerate(per_rank):
+                where = "%s, world size %d rank %d, stride %d, files %s" % (name, P, rank, s, rels)
+                if "err" in x:
+                    out.append((key, "%s: raised %s" % (where, x["err"])))
+                    continue
+                if x["lengths"] != exp_len:
+                    out.append((key + "-lengths", "%s: global lengths %s, in the caller's order they are %s" % (
+                        where, x["lengths"], exp_len)))
+                exp = [e for f in fs[rank::P] for e in f["elems"][::s]]
+                if x["data"] != exp or x["dtype"] != c["dtype"] or x["tail"] != c["tail"]:
+                    out.append((key, "%s: the rank's stripe is not files[%d::%d] of the caller's list, strided" % (where, rank, P)))
+    for name, x in r.get("trj", {}).items():
+        key = "concat" if name == "lac" else "striped-trj"
+        where = "trajectory files %s (%s frames, stride %d, processes=%d), %s" % (
+            [f["rel"][:-4] + ".h5" for f in fs], [len(f["elems"]) for f in fs], s, c["trj"],
+            "load_as_concatenated" if name == "lac" else "load_trajectory_as_striped at world size 1")
+        if "err" in x:
+            out.append((key, "%s: raised %s" % (where, x["err"])))
+            continue
+        if not x["lengths_ok"]:
+            out.append((key + "-lengths", "%s: lengths %s, in the caller's order they are %s" % (where, x["lengths"], exp_len)))
+        if not x["data_ok"]:
+            out.append((key, "%s: xyz is not the concatenation of the individual loads in the caller's order" % where))
+    return _first_per_key(out, "(world size, rank) pairs")
+
+
 def _oracle_extra(c, r):
     out = []
+    if c["kind"] == "longrow":
+        return _oracle_longrow(c, r)
+    if c["kind"] == "ord":
+        return _oracle_ord(c, r)
     if c["kind"] == "long":
         if "err" in r:
             return [("long-row", "save/load of a long row raised %s" % r)]
@@ -540,11 +988,11 @@ def _oracle_extra(c, r):
 
 
 def oracle(c, r):
-    if c["kind"] in ("long", "lachist"):
-        return _oracle_extra(c, r)
-    out = []
     if "err" in r and str(r["err"]).startswith("Unexpected"):
         return [("harness", str(r))]
+    if c["kind"] in ("long", "lachist", "longrow", "ord"):
+        return _oracle_extra(c, r)
+    out = []
     if c["kind"] == "ra":
         rows, s = c["rows"], c["stride"]
         if any(len(x) == 0 for x in rows):
@@ -706,9 +1154,42 @@ def _lac_term(c, r):
     return "load_as_concatenated %s %s %s %s" % (_cnl(c["sched"]), hint, zero, files)
 
 
+def _ord_npy_files(c):
+    return clist(c["files"], lambda f: "(%s, %s, %s)" % (_dtc(c["dtype"]), _cnl(c["tail"]), _celems(f["elems"])),
+                 "(nat * list nat * list elem)")
+
+
+def _ord_arr(c):
+    return "(Ra %s %s %s)" % (_dtc(c["dtype"]), _cnl(c["tail"]), clist([f["elems"] for f in c["files"]], _celems, "(list elem)"))
+
+
+def _ord_term(c, r):
+    """every rank of every world size: the model's striped loaders (rank, size as arguments) and the regenerated stripe
+    expression against what that rank of the real code returned"""
+    parts = ["leqb str_eqb (arr_keys %s %s) %s" % (_cstr("arr"), _ord_arr(c), clist(r["names"], _cstr, "str"))]
+    files_t, s = _ord_npy_files(c), cz(c["stride"])
+    rows_t = clist([f["elems"] for f in c["files"]], _celems, "(list elem)")
+    for name in ("npy", "lf_npy", "h5", "lf_h5"):
+        for P, per_rank in r[name].items():
+            for rank, x in enumerate(per_rank):
+                exp = ("(inl %s)" % _cloaded(x)) if "err" in x else _cres(x["lengths"], x["data"])
+                if name in ("npy", "lf_npy"):
+                    parts.append("res_eqb (load_npy_as_striped %s %s %s %s) %s" % (cn(rank), cn(int(P)), files_t, s, exp))
+                else:
+                    parts.append("match save %s %s with Some f => res_eqb (load_h5_as_striped %s %s f %s) %s | None => false end" % (
+                        _cstr("arr"), _ord_arr(c), cn(rank), cn(int(P)), s, exp))
+                if "err" not in x and name == "npy":
+                    parts.append("g_npy_ok_at %s %s %s %s %s %s %s" % (
+                        cz(rank), cz(int(P)), _cnl(c["tail"]), s, rows_t, _czl(x["lengths"]), _celems(x["data"])))
+    return " && ".join("(%s)" % p for p in parts)
+
+
 def coq_show(c):
-    if c["kind"] in ("long", "lachist"):
+    if c["kind"] in ("long", "lachist", "longrow"):
         return "tt"
+    if c["kind"] == "ord":
+        return "map (fun P => map (fun r => load_npy_as_striped r P %s %s) (seq 0 P)) %s" % (
+            _ord_npy_files(c), cz(c["stride"]), _cnl(c["worlds"]))
     if c["kind"] == "ra":
         return "(save_load_rows %s %s %s %s, save_striped %s %s %s)" % (
             _cstr(c["tag"]), _carr(c), copt(c["idxs"], _cnl, "(list nat)"), cz(c["stride"]),
@@ -723,10 +1204,12 @@ def coq_show(c):
 
 
 def coq_check(c, r):
-    if c["kind"] in ("long", "lachist"):
+    if c["kind"] in ("long", "lachist", "longrow"):
         return None        # oracle-only cases (sizes / file histories outside the Coq model's evaluation)
     if "err" in r and str(r["err"]).startswith("Unexpected"):
         return None
+    if c["kind"] == "ord":
+        return _ord_term(c, r)
     if c["kind"] == "ra":
         args = "%s %s" % (_cstr(c["tag"]), _carr(c))
         if "save_err" in r:
@@ -768,8 +1251,10 @@ def coq_check(c, r):
 
 # ----------------------------------------------------------------------------- evidence
 def nontrivial(c, r):
-    if c["kind"] in ("long", "lachist"):
+    if c["kind"] in ("long", "lachist", "longrow"):
         return True
+    if c["kind"] == "ord":
+        return len(c["files"]) >= 2 and [f["rel"] for f in c["files"]] != sorted(f["rel"] for f in c["files"])
     if c["kind"] == "ra":
         rows = c["rows"]
         return (len({len(x) for x in rows}) >= 2 or c["stride"] > 1 or
@@ -783,7 +1268,32 @@ def nontrivial(c, r):
 
 def tags(c, r):
     t = [c["kind"]]
-    if c["kind"] == "ra":
+    if c["kind"] == "longrow":
+        if "probes" in r:
+            if max(c["lens"]) > (1 << 21):
+                t.append("row>2^21")
+            if max(c["lens"]) > (1 << 24):
+                t.append("row>2^24")
+            if c["tail"]:
+                t.append("longrow-multi-dim")
+            if any(p["keys"] is not None and len(p["keys"]) > 1 for p in c["probes"]):
+                t.append("longrow-key-subset")
+            if any(p["stride"] > (1 << 19) for p in c["probes"]):
+                t.append("longrow-stride>2^19")
+            if any(sp["P"] > 1 for sp in c["striped"]):
+                t.append("longrow-striped-world-2")
+    elif c["kind"] == "ord":
+        if "npy" in r:
+            t.append("ord-" + c["layout"])
+            t.append("ord-equal-lengths" if c["equal"] else "ord-unequal-lengths")
+            for P in c["worlds"]:
+                t.append("ord-world-%d" % P)
+            if "trj" in r:
+                t.append("ord-trajectories")
+            if any("err" not in x and len(x["lengths"]) and len(c["files"][rank::int(P)]) == 1
+                   for P, pr in r["h5"].items() for rank, x in enumerate(pr)):
+                t.append("ord-h5-rank-owns-one-row")
+    elif c["kind"] == "ra":
         n = len(c["rows"])
         t.append("form-" + c["form"])
         if c["form"] == "ra":
@@ -792,6 +1302,15 @@ def tags(c, r):
             t.append("stride>1")
         if c["idxs"] is not None:
             t.append("key-subset" if len(c["idxs"]) != 1 else "single-key")
+            n_ = len(c["rows"])
+            if sorted(c["idxs"]) == list(range(n_)) and c["idxs"] != list(range(n_)):
+                st_ = [x[::c["stride"]] for x in c["rows"]]
+                if [st_[i] for i in c["idxs"]] != st_:      # the reordering changes the loaded data
+                    t.append("keys-permuted")
+                    if len({len(x) for x in st_}) == 1:
+                        t.append("keys-permuted-equal-lengths")
+                    if c["idxs"] == list(range(n_))[::-1]:
+                        t.append("keys-reversed")
         if c["tail"]:
             t.append("multi-dim-elements")
         if any(len(x) == 0 for x in c["rows"]):
@@ -805,11 +1324,15 @@ def tags(c, r):
         t.append("npy-" + ("err-" + r["err"] if "err" in r else "value"))
         if c["stride"] > 1 and "err" not in r:
             t.append("npy-stride>1")
-    else:
+    elif c["kind"] == "lac":
         if any(f["frame"] is not None for f in c["files"]):
             t.append("lac-frame-kw")
         if c["hint"]:
             t.append("lac-lengths-hint")
+        if c.get("distinct") and len(set(r.get("indiv_len", []))) == len(c["files"]):
+            t.append("lac-sounded-distinct-lengths")
+        if "3" in r.get("runs", {}):
+            t.append("lac-processes-3")
         if c["shared"]:
             t.append("lac-shared-kwargs")
         if "xyz_bits" in r:
@@ -822,7 +1345,12 @@ def tags(c, r):
 ESSENTIAL_TAGS = ["form-ra", "form-nd", "rows-10..99", "rows>=100", "stride>1", "key-subset", "single-key",
                   "multi-dim-elements", "single-array-strided", "zero-length-row-rejected", "raw-value",
                   "raw-err-NoSuchNodeError", "raw-err-DataInvalid", "npy-stride>1", "lac-compared-in-coq",
-                  "lac-out-of-order-schedule", "lac-frame-kw", "lac-lengths-hint"]
+                  "lac-out-of-order-schedule", "lac-frame-kw", "lac-lengths-hint",
+                  "longrow", "row>2^21", "longrow-multi-dim", "longrow-key-subset", "longrow-stride>2^19",
+                  "longrow-striped-world-2", "ord-unpadded", "ord-dirs-rev", "ord-dup-names", "ord-shuffled",
+                  "ord-equal-lengths", "ord-unequal-lengths", "ord-world-1", "ord-world-2", "ord-world-3", "ord-world-4",
+                  "ord-h5-rank-owns-one-row", "ord-trajectories", "keys-permuted", "keys-permuted-equal-lengths", "keys-reversed",
+                  "lac-sounded-distinct-lengths", "lac-processes-3"]
 
 
 def search(rng, tier):
@@ -839,6 +1367,14 @@ def search(rng, tier):
                     found.append((key, msg, c, r))
                 if found:
                     return found
+    for c in ([_ra_case(rng, n, True, perm=pm, equal=eq) for n in (2, 3, 11) for pm in ("rev", "perm") for eq in (False, True)] +
+              [_ord_case(rng, lay, eq) for lay in _ORD_LAYOUTS for eq in (False, True)] +
+              [_longrow_case(rng, "quick") for _ in range(2)] + [_lac_distinct_case(rng) for _ in range(10)]):
+        r = run_impl(c)
+        for key, msg in oracle(c, r):
+            found.append((key, msg, c, r))
+        if found:
+            return found
     for _ in range(40):
         c = _npy_case(rng) if rng.random() < 0.5 else _lac_case(rng, True)
         r = run_impl(c)
